@@ -273,6 +273,8 @@ def re_atom(r, depth):
         return "\\" + k, cls(s, neg)
     if depth > 0:
         t, nd = re_expr(r, depth - 1)
+        if nd["t"] == "any":
+            nd = dict(nd); nd["grp"] = True      # (.){n,m} is a generic repeat for the engine, .{n,m} is REPEAT_ANY
         return "(" + t + ")", nd
     b = r.choice(SAFE)
     return re_lit(b), lit(b)
@@ -345,7 +347,43 @@ def re_family(r, lazy):
     return txt, cat([lit(pre), node, lit(post)])
 
 
+def re_loopy(r):
+    """loops whose body can match nothing, behind zero-width assertions and around . with ? / {n,m}: the shapes where the
+    engine's guard against endless loops, its repeat counters and the nested syncs of REPEAT_ANY interact (D38, D40, D44, D45)"""
+    lz = r.random() < 0.5
+    q = "?" if lz else ""
+    a, b = r.sample([0x61, 0x62, 0x5f, 0x31], 2)
+    def opt(x): n = rep(lit(x), 0, 1); n["lz"] = lz; return re_lit(x) + "?" + q, n
+    def star(x): n = rep(lit(x), 0, -1); n["lz"] = lz; return re_lit(x) + "*" + q, n
+    def anyq():
+        lo, hi = r.choice([(0, 1), (0, 2), (1, 2), (0, 3)])
+        n = rep(dict(ANY), lo, hi); n["lz"] = lz
+        if (lo, hi) == (0, 1): return ".?" + q, n
+        n["brace"] = True
+        return ".{%d,%d}%s" % (lo, hi, q), n
+    inner = r.choice([lambda: opt(a), lambda: star(a), anyq, lambda: (lambda p1, p2: (p1[0] + p2[0], cat([p1[1], p2[1]])))(opt(a), opt(b)),
+                      lambda: (lambda p1, p2: (p1[0] + p2[0], cat([p1[1], p2[1]])))(anyq(), opt(b))])()
+    form = r.choice(["*", "+", "{2,3}", "{3,}", "{0,4}", "{2}"])
+    if form == "*": outer = rep(inner[1], 0, -1)
+    elif form == "+": outer = rep(inner[1], 1, -1)
+    else:
+        lo, hi = {"{2,3}": (2, 3), "{3,}": (3, -1), "{0,4}": (0, 4), "{2}": (2, 2)}[form]
+        outer = rep(inner[1], lo, hi); outer["brace"] = True
+    outer["lz"] = lz
+    pre = r.choice([("", None), ("\\b", {"t": "wb"}), ("^", {"t": "bol"}), ("\\B", {"t": "nwb"}), (re_lit(b), lit(b)), (re_lit(b) + "\\b", None)])
+    post = r.choice([(re_lit(0x7a), lit(0x7a)), (re_lit(a), lit(a)), ("$", {"t": "eol"}), (re_lit(0x7a) + "$", None)])
+    nodes, txt = [], ""
+    if pre[0]:
+        txt += pre[0]; nodes += [pre[1]] if pre[1] else [lit(b), {"t": "wb"}]
+    txt += "(" + inner[0] + ")" + form + q
+    nodes.append(outer)
+    txt += post[0]; nodes += [post[1]] if post[1] else [lit(0x7a), {"t": "eol"}]
+    return txt, cat(nodes)
+
+
 def re_top(r, depth, anchors=True):
+    if anchors and r.random() < 0.12:
+        return re_loopy(r)
     lazy = r.random() < 0.5
     if r.random() < 0.3:
         t, nd = re_family(r, lazy)
@@ -371,6 +409,18 @@ def c03(res, tier, seed):
     vm_budget = [2500 if tier == "quick" else 12000]
     r = yv.rng(seed, "c03")
     wd = yv.workdir("C03")
+    # the engine as built (ReVM.tla) against the documented semantics (ReMatch.tla) on all small expressions
+    for cfg in ("MC_ReVM.cfg", "MC_ReVM_any.cfg", "MC_ReVM_keyed.cfg"):
+        m = yv.tlc("ReVMMC", cfg, wd, timeout=1500, coverage=False)
+        if m["violated"]:
+            res.violation("TLC: %s in %s" % (m["violated"], cfg), yv.save_replay("C03", "model_" + cfg, {"tlc": m["out"][-4000:]}))
+        else:
+            yv.require_tlc_ok(m, cfg)
+        res.add_tlc("revm_" + cfg.split(".")[0], m)
+    v = yv.tlc("ReVMMC", "MC_ReVM_D40.cfg", wd, timeout=600, coverage=False)
+    if not (v["violated"] and "Equivalent" in v["violated"]):
+        raise yv.Broken("non-vacuity run MC_ReVM_D40.cfg did not violate Equivalent")
+    res.cov["parts"]["nonvacuity_MC_ReVM_D40.cfg"] = "violated as expected (D40)"
     npat = 500 if tier == "quick" else 6000
     groups, metas = [], []
     for pi in range(npat):
@@ -408,7 +458,10 @@ def c03(res, tier, seed):
             src, ast, fl = metas[ci + gi]
             for bi, b in enumerate(groups[ci + gi]["bufs"]):
                 if g["rets"][bi] != 0:
+                    # a scan error on a small expression and buffer is not a verdict (D45 showed up as ERROR_TOO_MANY_RE_FIBERS)
                     skipped += 1
+                    records.append({"kind": "rescanerr", "ast": ast, "ret": g["rets"][bi]})
+                    owners.append((src, b.hex(), "scan returned %d" % g["rets"][bi]))
                     continue
                 sc = g["scans"][bi]["t"]["strings"]["$s"]
                 records.append({"kind": "re", "ast": ast, "buf": list(b), "obs": [[o, l] for o, l, k, p in sc], "ascii": fl["ascii"],
@@ -445,6 +498,8 @@ def c03(res, tier, seed):
             src, ast, fl, ops = metas[ci + gi]
             for bi, o in enumerate(ops):
                 if g["rets"][bi] != 0:
+                    records.append({"kind": "rescanerr", "ast": ast, "ret": g["rets"][bi]})
+                    owners.append((src, o.hex(), "scan returned %d" % g["rets"][bi]))
                     continue
                 v = g["scans"][bi]["t"]["verdict"]
                 records.append({"kind": "matches", "ast": ast, "buf": list(o), "obs": v, "nocase": fl["nocase"], "dotall": fl["dotall"]})
